@@ -216,6 +216,11 @@ class NativeFn:
         return f"<NativeFn {self.name}>"
 
 
+class HostObj:
+    """base of library-model objects (pyvc.iomodel): attribute access, calls, item access, iteration, truth value and
+    the context-manager protocol are executed by CPython on the model object, which handles symbolic values itself"""
+
+
 class Ext:
     """reference into an external library: module, function or attribute; never executed"""
 
